@@ -166,6 +166,64 @@ def fix_playback_text(t):
     return t
 
 
+
+def repair_tests(tests):
+    """Sliced playback tests can lack the values of nondeterministic *arrays* (chip contents drawn
+    as [u8; 64] blocks) that the failing assertion does not depend on; the playback library then
+    stops at the first size mismatch.  For every generated test this builds a native search test
+    that re-inserts k one-byte filler values (k = 1..=264, four fill patterns) at each position of
+    the value list and runs the harness on the real code for each candidate; a candidate counts
+    only if the run fails *outside* Kani's playback library, i.e. at the harness's own assertion or
+    in the code under test -- the concrete counterexample is then printed in the panic message."""
+    out = []
+    for n, t in enumerate(tests):
+        m = re.search(r"kani::concrete_playback_run\(concrete_vals,\s*([A-Za-z0-9_:]+)\)", t)
+        vals = re.findall(r"^\s*(vec!\[[0-9, ]*\]),\s*$", t, flags=re.M)
+        name = re.search(r"fn (kani_concrete_playback_\w+)", t)
+        if not (m and name):
+            continue
+        body = """
+#[test]
+fn %s_repair() {
+    use std::panic;
+    use std::string::String;
+    use std::sync::Mutex;
+    static LAST: Mutex<Option<(String, String)>> = Mutex::new(None);
+    let base: Vec<Vec<u8>> = vec![%s];
+    let old = panic::take_hook();
+    panic::set_hook(std::boxed::Box::new(|info| {
+        let file = info.location().map(|l| String::from(l.file())).unwrap_or_default();
+        let msg = if let Some(s) = info.payload().downcast_ref::<&str>() { String::from(*s) }
+                  else if let Some(s) = info.payload().downcast_ref::<String>() { s.clone() } else { String::new() };
+        *LAST.lock().unwrap() = Some((file, msg));
+    }));
+    let mut found: Option<String> = None;
+    'search: for p in 0..=base.len() {
+        for k in 1..=264usize {
+            for fill in [0x00u8, 0xff, 0x5a, 0xa5] {
+                let mut v = base.clone();
+                for _ in 0..k { v.insert(p, vec![fill]); }
+                *LAST.lock().unwrap() = None;
+                let r = panic::catch_unwind(panic::AssertUnwindSafe(|| kani::concrete_playback_run(v, %s)));
+                if r.is_err() {
+                    if let Some((file, msg)) = LAST.lock().unwrap().clone() {
+                        // a candidate that breaks a harness assumption is not a counterexample
+                        if !file.ends_with("concrete_playback.rs") && !msg.contains("kani::assume") {
+                            found = Some(std::format!("{} one-byte values 0x{:02x} re-inserted at position {}: {} ({})", k, fill, p, msg, file));
+                            break 'search;
+                        }
+                    }
+                }
+            }
+        }
+    }
+    panic::set_hook(old);
+    if let Some(f) = found { panic!("REPAIRED REPLAY reproduces natively: {}", f); }
+}
+""" % (name.group(1), ", ".join(vals), m.group(1))
+        out.append(body)
+    return out
+
 def native_playback(w, h, tests, prop):
     """Append the generated tests to the scratch copy of the harness file and run them with
     `cargo kani playback` (dev profile, then --release).  Returns (reproduced, details, path)."""
@@ -426,6 +484,14 @@ def main():
                             n_replays += 1
                             if rep:
                                 break
+                            if sliced:
+                                # values of nondeterministic arrays missing from the sliced trace?
+                                rt = repair_tests(tests)
+                                if rt:
+                                    rep, out, rpath = native_playback(w, h, rt, prop)
+                                    n_replays += 1
+                                    if rep:
+                                        break
                         if not tests and not rep:
                             entry["verdict"] = "inconclusive"
                             entry["reason"] += " | no concrete playback generated (see %s)" % glog
